@@ -49,7 +49,10 @@ Record world := mkWorld { w_stat : list hcell; w_docs : list docv }.
 Definition null_obj_loc : iloc := LStat 0.      (* Parser::add_null()::null_obj *)
 Definition null_oh_loc : iloc := LStat 1.       (* QPDF_Array.cc: static const QPDFObjectHandle null_oh *)
 Definition null_cell : hcell := mkCell HNull None 0.
-Definition world0 : world := mkWorld [null_cell; null_cell] [].
+(* arena 0 is the scratch arena of context-free parses (QPDFObjectHandle::parse(text) has no QPDF argument);
+   documents are numbered from 1 *)
+Definition scratch_docv : docv := mkDocv [] [] false [].
+Definition world0 : world := mkWorld [null_cell; null_cell] [scratch_docv].
 
 (* ---------------------------------------------------------------- lists *)
 Fixpoint set_nth {A} (l : list A) (n : nat) (x : A) : list A :=
@@ -656,10 +659,10 @@ Definition obs_doc (w : world) (d : nat) : list (N * list N) * list (nat * (list
 (* fresh-parse probes (no context): "[ null 1 << /K null /L [ null ] >> ]" and a 102-element array with 101 nulls *)
 Definition probe1_toks : list itok := [TAO; TNull; TInt 1; TDO; TName 75; TNull; TName 76; TAO; TNull; TAC; TDC; TAC].
 Definition probe2_toks : list itok := TAO :: TInt 5 :: repeat TNull 101 ++ [TAC].
-Definition probe_world (w : world) : world := mkWorld (w_stat w) (w_docs w ++ [new_docv (length (w_docs w))]).
+Definition probe_world (w : world) : world := w.
 
 Definition parse_fresh (sh : bool) (w : world) (toks : list itok) : option (list N) :=
-  let a := length (w_docs w) in
+  let a := O in
   match parse_obj sh None a (probe_world w) toks with
   | Some (w1, l) => unparse_h w1 l
   | None => None
@@ -667,7 +670,7 @@ Definition parse_fresh (sh : bool) (w : world) (toks : list itok) : option (list
 
 Definition probe2_expect : list N := [91; 32; 53; 32] ++ null_run 101 ++ [93].
 Definition obs_probe2 (sh : bool) (w : world) : list N :=
-  let a := length (w_docs w) in
+  let a := O in
   match parse_obj sh None a (probe_world w) probe2_toks with
   | Some (w1, l) =>
     let item p := match nav1 sh a w1 l p with Some (w2, e) => unparse_h w2 e | None => Some [63] end in
